@@ -254,50 +254,37 @@ spif_mbuff_init_from_fp(spif_mbuff_t self, FILE *fp)
 spif_bool_t
 spif_mbuff_init_from_fd(spif_mbuff_t self, int fd)
 {
-    spif_byteptr_t p;
-    off_t file_pos;
-    spif_memidx_t file_size;
-
     ASSERT_RVAL(!SPIF_MBUFF_ISNULL(self), FALSE);
     ASSERT_RVAL((fd >= 0), FALSE);
     /* ***NOT NEEDED*** spif_obj_init(SPIF_OBJ(self)); */
     spif_obj_set_class(SPIF_OBJ(self), SPIF_CLASS(SPIF_MBUFFCLASS_VAR(mbuff)));
 
-    file_pos = lseek(fd, (off_t) 0, SEEK_CUR);
-    file_size = (spif_memidx_t) lseek(fd, (off_t) 0, SEEK_END);
-    lseek(fd, file_pos, SEEK_SET);
-    if (file_size < 0) {
-        spif_byteptr_t p;
-        size_t cnt = 0;
+    /* One loop for every kind of input (regular file, pipe, tty, socket):  read until the
+       input ends, growing the block geometrically.  The read position is never moved, so the
+       buffer holds exactly what lies between the current position and the end of the input. */
+    self->size = buff_inc;
+    self->len = 0;
+    self->buff = (spif_byteptr_t) MALLOC(self->size);
 
-        D_OBJ(("Unable to seek to EOF -- %s.\n", strerror(errno)));
-        self->size = buff_inc;
-        self->len = 0;
-        self->buff = (spif_byteptr_t) MALLOC(self->size);
+    for (;;) {
+        ssize_t cnt;
 
-        for (p = self->buff; (cnt = read(fd, p, buff_inc)) > 0; p += buff_inc) {
-            self->len += cnt;
-            if (cnt < buff_inc) {
-                break;
-            } else {
-                self->size += buff_inc;
-                self->buff = (spif_byteptr_t) REALLOC(self->buff, self->size);
-            }
-        }
-        self->size = self->len;
-        if (self->size) {
+        if ((self->size - self->len) < (spif_memidx_t) buff_inc) {
+            self->size += self->size;
             self->buff = (spif_byteptr_t) REALLOC(self->buff, self->size);
-        } else {
-            FREE(self->buff);
         }
+        cnt = read(fd, self->buff + self->len, buff_inc);
+        if (cnt <= 0) {
+            /* End of input, or an error:  keep what has arrived.  (A short count is not the end.) */
+            break;
+        }
+        self->len += cnt;
+    }
+    self->size = self->len;
+    if (self->size) {
+        self->buff = (spif_byteptr_t) REALLOC(self->buff, self->size);
     } else {
-        self->len = self->size = file_size;
-        self->buff = (spif_byteptr_t) MALLOC(self->size);
-
-        if (read(fd, p, file_size) < 1) {
-            FREE(self->buff);
-            return FALSE;
-        }
+        FREE(self->buff);
     }
     return TRUE;
 }
